@@ -18,15 +18,19 @@ pub use sched::world;
 #[cfg(feature = "sched")]
 pub use sched::explore;
 
-#[cfg(feature = "native")]
+#[cfg(any(feature = "native", feature = "loomck"))]
 pub mod native;
 #[cfg(feature = "native")]
 pub use native::sync;
-#[cfg(feature = "native")]
+#[cfg(any(feature = "native", feature = "loomck"))]
 pub use native::world;
+#[cfg(feature = "loomck")]
+pub mod loomck;
+#[cfg(feature = "loomck")]
+pub use loomck::sync;
 
-#[cfg(all(feature = "sched", feature = "native"))]
-compile_error!("features `sched` and `native` are mutually exclusive");
+#[cfg(any(all(feature = "sched", feature = "native"), all(feature = "sched", feature = "loomck"), all(feature = "native", feature = "loomck")))]
+compile_error!("features `sched`, `native` and `loomck` are mutually exclusive");
 
 pub mod hook {
     //! Event hooks called from the code under test (one added line each, see MANIFEST.hooks).
